@@ -15,6 +15,8 @@ import (
 	"github.com/hprose/hprose-golang/v3/rpc/plugins/reverse"
 	"github.com/hprose/hprose-golang/v3/rpc/socket"
 	"github.com/hprose/hprose-golang/v3/rpc/udp"
+	"github.com/hprose/hprose-golang/v3/rpc/websocket"
+	"verif/fakews"
 	"verif/mcgo/h"
 	"verif/mcgo/sockfake"
 	"verif/vs"
@@ -24,11 +26,118 @@ const ID = "C09"
 
 func only(tr string) {
 	core.VerifResetTransports()
-	if tr == "socket" {
+	switch tr {
+	case "socket":
 		socket.RegisterTransport()
-	} else {
+	case "udp":
 		udp.RegisterTransport()
+	case "websocket":
+		websocket.RegisterTransport()
 	}
+}
+
+// websocket framing: one binary message = 4-byte big-endian index (high bit = error) + body
+func wsFrame(index int, body []byte) []byte {
+	return append([]byte{byte(index >> 24), byte(index >> 16), byte(index >> 8), byte(index)}, body...)
+}
+func wsParse(d []byte) (int, []byte) {
+	return int(d[0])<<24 | int(d[1])<<16 | int(d[2])<<8 | int(d[3]), d[4:]
+}
+
+func wsClient(callers int, strays bool, quick, thorough int) h.Scenario {
+	name := fmt.Sprintf("websocket-client/callers=%d/strays=%v", callers, strays)
+	return h.Scenario{Name: name, Quick: quick, Thorough: thorough, Run: func(ch vs.Chooser, trace bool) (*vs.Sched, h.Outcome) {
+		got := make([]string, callers)
+		errs := make([]error, callers)
+		only("websocket")
+		fakews.Dial = func(url string) (*fakews.Conn, error) {
+			var hold []held
+			flushArmed := false
+			c := &fakews.Conn{Name: "wsconn"}
+			c.React = func(c *fakews.Conn, m fakews.Message) []fakews.Message {
+				idx, body := wsParse(m.Data)
+				if vs.Choose(2, "peer-answers-now-or-later") == 0 {
+					return []fakews.Message{{Type: fakews.BinaryMessage, Data: wsFrame(idx, sockfake.Reply(body))}}
+				}
+				hold = append(hold, held{idx, append([]byte{}, body...)})
+				if !flushArmed {
+					flushArmed = true
+					vs.AddTimer(1000, "peer-answers-held-requests", func() {
+						if strays {
+							c.Deliver(fakews.Message{Type: fakews.BinaryMessage, Data: wsFrame(0x7ffffff0, []byte("re:payload-of-caller-stray"))})
+							c.Deliver(fakews.Message{Type: fakews.TextMessage, Data: []byte("ignored text message")})
+						}
+						ord := order(len(hold))
+						for _, k := range ord {
+							c.Deliver(fakews.Message{Type: fakews.BinaryMessage, Data: wsFrame(hold[k].index, sockfake.Reply(hold[k].body))})
+						}
+						if strays {
+							c.Deliver(fakews.Message{Type: fakews.BinaryMessage, Data: wsFrame(hold[ord[0]].index, []byte("re:payload-of-caller-duplicate"))})
+						}
+						hold = nil
+						flushArmed = false
+					})
+				}
+				return nil
+			}
+			return c, nil
+		}
+		s := vs.Run(ch, vs.Config{Trace: trace}, func() {
+			client := core.NewClient("ws://peer/")
+			for i := 0; i < callers; i++ {
+				i := i
+				vs.GoFG(fmt.Sprintf("caller%d", i), func() {
+					got[i], errs[i] = call(client, fmt.Sprintf("payload-of-caller-%d", i))
+				})
+			}
+		})
+		return s, judgeCallers(name, s, got, errs)
+	}}
+}
+
+func wsServer(nreq int, quick, thorough int) h.Scenario {
+	name := fmt.Sprintf("websocket-server/requests=%d", nreq)
+	return h.Scenario{Name: name, Quick: quick, Thorough: thorough, Run: func(ch vs.Chooser, trace bool) (*vs.Sched, h.Outcome) {
+		conn := &fakews.Conn{Name: "wssconn"}
+		s := vs.Run(ch, vs.Config{Trace: trace}, func() {
+			service := core.NewService()
+			service.Use(func(ctx context.Context, request []byte, next core.NextIOHandler) ([]byte, error) {
+				vs.Point("service-working")
+				return append([]byte("re:"), request...), nil
+			})
+			hd := &websocket.Handler{}
+			hd.Service = service
+			for i := 0; i < nreq; i++ {
+				conn.Deliver(fakews.Message{Type: fakews.BinaryMessage, Data: wsFrame(100+i, []byte(fmt.Sprintf("request-%d", i)))})
+			}
+			vs.AddTimer(1000, "client-closes", func() { conn.PeerClose(nil) })
+			hd.Serve(context.Background(), conn)
+		})
+		var o h.Outcome
+		var seen []string
+		answered := map[int]int{}
+		for _, m := range conn.Sent {
+			if len(m.Data) < 4 {
+				o.Viol = append(o.Viol, h.V{Sig: "ws-server|short-response-message", What: fmt.Sprintf("%s: %q", name, m.Data)})
+				continue
+			}
+			idx, body := wsParse(m.Data)
+			seen = append(seen, fmt.Sprintf("%d:%s", idx, body))
+			answered[idx]++
+			if want := fmt.Sprintf("re:request-%d", idx-100); string(body) != want {
+				o.Viol = append(o.Viol, h.V{Sig: "ws-server|response-under-wrong-identifier", What: fmt.Sprintf("%s: identifier %d carries %q, want %q", name, idx, body, want)})
+			}
+		}
+		o.Key = strings.Join(seen, " ")
+		if len(s.Hangs) == 0 && !s.Pruned && s.Aborted == "" {
+			for i := 0; i < nreq; i++ {
+				if answered[100+i] != 1 {
+					o.Viol = append(o.Viol, h.V{Sig: "ws-server|request-not-answered-exactly-once", What: fmt.Sprintf("%s: request %d answered %d times (responses %v)", name, 100+i, answered[100+i], seen)})
+				}
+			}
+		}
+		return s, o
+	}}
 }
 
 type held struct {
@@ -268,6 +377,7 @@ func main() {
 		udpClient(2, false, 2, 3), udpClient(2, true, 2, 3), udpClient(3, true, 1, 2),
 		socketServer(2, false, 2, 3), socketServer(3, false, 1, 2), socketServer(2, true, 2, 3),
 		reverseScenario(2, 0, 2, 3), reverseScenario(2, time.Second, 2, 3),
+		wsClient(2, true, 2, 3), wsClient(3, true, 1, 2), wsServer(2, 2, 3), wsServer(3, 1, 2),
 	}
 	h.Main(ID, scen, nil)
 }
